@@ -4,7 +4,7 @@ from __future__ import annotations
 import json
 import os
 import warnings
-from typing import List, Tuple
+from typing import Any, List, Tuple
 
 from .. import valuecheck
 from ..oracle import roundtrip_relation
@@ -185,6 +185,115 @@ def pinned_alternatives(ctx: Ctx, sites_per_occurrence, k: int) -> dict:
     return {"evaluations": ev, "distinct": len(hashes), "pinned_items": len(items), "cases_per_item": k, "pairs_reached": len(pairs)}
 
 
+_MATRIX_RUNNER = r"""
+import json, sys
+cases = json.load(open(sys.argv[1]))
+from lsprotocol import converters, types
+conv = converters.get_converter()
+out = []
+for name, j in cases:
+    T = getattr(types, name)
+    try:
+        obj = conv.structure(j, T)
+    except Exception:
+        out.append(["raised"]); continue
+    try:
+        out.append(["ok", json.dumps(json.loads(json.dumps(conv.unstructure(obj, T))), sort_keys=True)])
+    except Exception as e:
+        out.append(["unstructure-raised", type(e).__name__])
+json.dump(out, open(sys.argv[2], "w"))
+"""
+
+
+def _matrix_run(args) -> dict:
+    import subprocess
+    exe, cases_path, out_path, script, pythonpath = args
+    r = subprocess.run([exe, "-B", script, cases_path, out_path], capture_output=True, text=True, timeout=1800,
+                       env={"PYTHONPATH": pythonpath, "PYTHONHASHSEED": "0", "PYTHONDONTWRITEBYTECODE": "1", "PATH": "/usr/bin:/bin"})
+    if r.returncode != 0 or not os.path.exists(out_path):
+        return {"exe": exe, "error": (r.stderr or r.stdout).strip().splitlines()[-1:] or ["no output"]}
+    return {"exe": exe, "outcomes": json.load(open(out_path))}
+
+
+def interpreter_matrix(ctx: Ctx, k: int, sites_per_occurrence) -> dict:
+    """the package supports several Python versions: the same inputs through the package under every interpreter that is
+    installed next to the one running the check (with the same attrs/cattrs), compared with this interpreter's outcomes -
+    which the round-trip oracle above has judged."""
+    import glob
+    import shutil
+    import sys
+    import attrs
+    from .. import gen, runner, tvgen
+    from ..hyp import mini
+    from ..subject import REPO
+    here = os.path.realpath(sys.executable)
+    exes = []
+    for e in sorted(glob.glob("/root/.pyenv/versions/3.*/bin/python")):
+        ver = os.path.basename(os.path.dirname(os.path.dirname(e)))
+        minor = int(ver.split(".")[1])
+        if 8 <= minor and os.path.realpath(e) != here and ver != "%d.%d.%d" % sys.version_info[:3]:
+            exes.append(e)
+    if not exes:
+        return {"skipped": "no other interpreter found under /root/.pyenv/versions"}
+    sub = valuecheck.subject()
+    sites = tvgen.Sites(sub.objects)
+    cases: List[Any] = []
+
+    def type_name(root: tuple):
+        if root[0] == "struct":
+            return root[1]
+        if root[0] == "msg":
+            kind_, msg_ = sub.objects.message(root[2])
+            req, resp = sub.model.message_class_names(kind_, msg_)
+            return resp if root[1] == "response" else req
+        return None
+
+    for locus, t in sub.model.union_occurrences():
+        if locus.split("|")[0] == "alias:LSPAny":
+            continue
+        for root, route in sites.sites(locus, sites_per_occurrence):
+            name = type_name(root)
+            if name is None or not hasattr(sub.types, name):
+                continue
+            for i in range(len(t["items"])):
+                mini(tvgen.value_strategy(sub.objects, root, tvgen.GenCfg(route=route + [f"{locus}|{i}"], max_nodes=80)), k,
+                     (ctx.seed, "C01-matrix", locus, i, name), lambda x: cases.append([name, erase(x[0])]))
+    # every enumeration at its use sites is part of the union-free surface: one value per structure as well
+    for sname in sorted(sub.model.structs):
+        if not sname.startswith("_") and hasattr(sub.types, sname):
+            mini(tvgen.value_strategy(sub.objects, ("struct", sname), tvgen.GenCfg(max_nodes=60)), 2, (ctx.seed, "C01-matrix-s", sname),
+                 lambda x: cases.append([sname, erase(x[0])]))
+    d = gen.scratch("lspverif-matrix-")
+    try:
+        cases_path, script = os.path.join(d, "cases.json"), os.path.join(d, "runner.py")
+        json.dump(cases, open(cases_path, "w"))
+        open(script, "w").write(_MATRIX_RUNNER)
+        site = os.path.dirname(os.path.dirname(attrs.__file__))
+        pythonpath = os.pathsep.join([os.path.join(REPO, "packages", "python"), site])
+        jobs = [(e, cases_path, os.path.join(d, f"out{i}.json"), script, pythonpath) for i, e in enumerate([sys.executable] + exes)]
+        results = runner.pmap(_matrix_run, jobs)
+        base = results[0]
+        if "error" in base:
+            raise runner.HarnessError(f"matrix runner fails under the check's own interpreter: {base['error']}")
+        stats = {"cases": len(cases), "interpreters": [], "comparisons": 0, "unusable": []}
+        for r in results[1:]:
+            ver = os.path.basename(os.path.dirname(os.path.dirname(r["exe"])))
+            if "error" in r:
+                # cannot even import the package with these libraries: reported, not judged (the libraries are the venv's)
+                stats["unusable"].append([ver, str(r["error"])[:160]])
+                continue
+            stats["interpreters"].append(ver)
+            for (name, j), a, b in zip(cases, base["outcomes"], r["outcomes"]):
+                stats["comparisons"] += 1
+                if a != b:
+                    ctx.finding(("interpreter-differs", name, "python" + ".".join(ver.split(".")[:2])),
+                                f"{name} {json.dumps(j)[:160]}: Python {ver} gives {str(b)[:120]}, Python {sys.version_info.major}.{sys.version_info.minor} gives {str(a)[:120]}",
+                                {"type": name, "json": j, "interpreter": r["exe"]})
+        return stats
+    finally:
+        shutil.rmtree(d, ignore_errors=True)
+
+
 def self_recursive_routes(model) -> List[Tuple[str, List[str]]]:
     """(structure, route) for every property through which a structure contains itself (directly, or through arrays,
     maps, unions, aliases): one round of the route nests the structure one level deeper."""
@@ -245,6 +354,9 @@ def run(ctx: Ctx) -> None:
     pin = pinned_alternatives(ctx, 3 if ctx.quick else None, 12 if ctx.quick else 60)
     ctx.coverage["pinned_union_alternatives"] = pin
     ctx.coverage["evaluations"] += pin["evaluations"]
+    mx = interpreter_matrix(ctx, 1 if ctx.quick else 6, 1 if ctx.quick else 3)
+    ctx.coverage["interpreter_matrix"] = mx
+    ctx.coverage["evaluations"] += mx.get("comparisons", 0)
     deep = deep_chains(ctx, [25, 100] if ctx.quick else [25, 100, 180])
     ctx.coverage["deep_chains"] = deep
     ctx.coverage["evaluations"] += deep["cases"]
